@@ -329,6 +329,28 @@ def run(ctx, only_scripts=None):
             if v["key"].startswith("C17:") and v["key"] not in seen:
                 seen.add(v["key"])
                 violations.append(v)
+        # beyond the listed properties: the continuous recorder's pruning of old files (Prune.tla), reported as a NOTE
+        prune = dict(design=None, scenarios=0, deleting=0, accepted=None, note=None)
+        try:
+            pd = ctx.tlc("prune_design", "Prune", mkcfg(spec="Spec", constants=dict(Total=10, MaxFiles=3, Sizes={1, 2, 4}),
+                                                         invariants=["OnlyWhileLow", "Outcome"], properties=["Terminates"], deadlock=False), timeout=600, heap="2g")
+            prune["design"] = dict(ok=pd["ok"], distinct=pd.get("distinct"))
+            pev, pnote = fam_e2e.prune_runs(ctx, binp)
+            prune["note"] = pnote
+            if pev is not None:
+                tp = ctx.path("run", "prune.trace.ndjson")
+                vlib.write_ndjson(tp, pev)
+                pr = ctx.tlc("prune_trace", "PruneTrace", mkcfg(init="TInit", next_="TNext", post="Consumed"), workers=1,
+                             files=[(tp, "trace.ndjson")], timeout=600, heap="2g")
+                pv = vlib.parse_viol(pr["out"])
+                prune.update(scenarios=len(pev), deleting=sum(1 for e in pev if len(e["left"]) < len(e["files"])),
+                             accepted=(pr.get("distinct", 0) == len(pev) + 1 and not pv))
+                if pv or not pd["ok"]:
+                    print("NOTE: deleteExcessRecordings differs from Prune.tla (not one of the listed properties): %s" % sorted({t for (_, ts) in pv for t in ts}))
+                    ctx.notes.append("Prune: %s" % sorted({t for (_, ts) in pv for t in ts}))
+        except vlib.Infra as e:
+            prune["note"] = "prune runs skipped: %s" % str(e)[:200]
+        stats["continuous_recorder_pruning_beyond_listed_properties"] = prune
         stats["e2e_runs_with_test_recordings"] = nreq
         stats["e2e_runs_with_reconnects"] = len(e2e_runs) - nreq
     if prop == "C12" and only_scripts is None:
